@@ -76,6 +76,8 @@ TCsaw ==
   /\ Ev("csaw") /\ CSee
   /\ Cur.ok = csaw'.ok
   /\ Cur.ids = csaw'.ids
+  \* C13: what the application was handed is still intact when it looks again later
+  /\ ("late_ids" \in DOMAIN Cur => Cur.late_ids = Cur.ids /\ Cur.late_msg = Cur.err.msg)
   /\ IF csaw'.ok
      THEN IF csaw'.carried >= 1 THEN Visible(csaw'.hdr, Cur.hdr) /\ Visible(csaw'.trl, Cur.trl)
           ELSE VisibleIn2(csaw'.hdr, Cur.hdr, Cur.trl) /\ VisibleIn2(csaw'.trl, Cur.hdr, Cur.trl)
